@@ -109,10 +109,13 @@ class TimeIntervalScheduler(Scheduler):
         """Check if the time interval has elapsed and execute callbacks if so.
 
         Updates the previous execution time after callbacks are
-        executed.
+        executed. Availability is decided once per update: testing it a
+        second time after the callbacks could restart the interval
+        without having run them when the clock advanced in between.
         """
-        super().update()  # Call parent to execute callbacks if available
         if self.is_available():
+            for callback in self._callbacks:
+                callback()
             self._previous_available_time = time.time()
 
 
